@@ -85,9 +85,9 @@ func (P *Program) computeEffects(U *Universe) {
 
 func mapHasFam(k, v Sort) string { return "MapHas." + sortTag(k) + "." + sortTag(v) }
 func mapValFam(k, v Sort) string { return "MapVal." + sortTag(k) + "." + sortTag(v) }
-func memFam(s Sort) string        { return "Mem." + sortTag(s) }
-func cellFam(s Sort) string       { return "Cell." + sortTag(s) }
-func memSort(s Sort) Sort         { return arraySort(SInt, arraySort(SInt, s)) }
+func memFam(s Sort) string       { return "Mem." + sortTag(s) }
+func cellFam(s Sort) string      { return "Cell." + sortTag(s) }
+func memSort(s Sort) Sort        { return arraySort(SInt, arraySort(SInt, s)) }
 
 func (P *Program) storeEffect(U *Universe, ef *Effects, addr ssa.Value, vt types.Type) {
 	switch a := addr.(type) {
